@@ -5,6 +5,8 @@ From GL Require Import Common.Bytes Table.TImpl Table.TSpec Table.TLib.
 Inductive lstep :=
 | LIns2 (v : value)
 | LIns3 (pos : Z) (v : value)
+| LFill (k : Z) (v : value)              (* k times table.insert(t, v) *)
+| LStop                                   (* the rest was checked on the Go side only *)
 | LInsBad (raised : bool)                 (* table.insert(t, a, b, c): wrong number of arguments *)
 | LRem1 (o : option value)                (* None = no value returned *)
 | LRem2 (pos : Z) (o : option value)
@@ -38,6 +40,8 @@ Definition impl_step (mai : Z) (t : tbl) (s : lstep) : bool * tbl :=
   match s with
   | LIns2 v => (true, tableInsert2 t v)
   | LIns3 pos v => (true, tableInsert3 mai t pos v)
+  | LFill k v => (true, Nat.iter (Z.to_nat k) (fun t' => tableInsert2 t' v) t)
+  | LStop => (true, t)
   | LInsBad raised => (eqb raised (negb (tableInsert_nargs_ok 4)), t)
   | LRem1 o => let (v, t') := tableRemove1 t in (opt_eqb value_eqb v o, t')
   | LRem2 pos o => let (v, t') := tableRemove2 t pos in (opt_eqb value_eqb v o, t')
@@ -61,6 +65,7 @@ Definition impl_step (mai : Z) (t : tbl) (s : lstep) : bool * tbl :=
 Fixpoint impl_steps (mai : Z) (t : tbl) (ss : list lstep) : bool :=
   match ss with
   | [] => true
+  | LStop :: _ => true
   | s :: r => let (ok, t') := impl_step mai t s in if ok then impl_steps mai t' r else false
   end.
 
@@ -100,6 +105,8 @@ Definition spec_step (st : lstate) (s : lstep) : bool * lstate :=
     | LIns2 v => (true, keep (if is_nil v then l else l ++ [v]))
     | LIns3 pos v =>
       if (1 <=? pos) && (pos <=? n + 1) && nonnil v then (true, keep (insert_at pos v l)) else (true, None)
+    | LFill k v => (true, if is_nil v then st else keep (l ++ repeat v (Z.to_nat k)))
+    | LStop => (true, st)
     | LInsBad raised => (raised, st)
     | LRem1 o =>
       if n =? 0 then (opt_eqb value_eqb o None, st)
@@ -137,6 +144,7 @@ Definition spec_step (st : lstate) (s : lstep) : bool * lstate :=
 Fixpoint spec_steps (st : lstate) (ss : list lstep) : bool :=
   match ss with
   | [] => true
+  | LStop :: _ => true
   | s :: r => let (ok, st') := spec_step st s in if ok then spec_steps st' r else false
   end.
 
